@@ -560,6 +560,41 @@ fn cost_of(lines: &[Vec<(f64, f64, f64)>], line_widths: &[f64], p: &Penalties) -
     cost
 }
 
+/// C10's domain: every ESC begins a well-formed sequence — CSI (ESC [ ... final byte
+/// in @..~) or OSC (ESC ] ... BEL or ESC \).  Texts outside it (truncated or unpaired
+/// sequences) are still measured, as noise, but no value is pinned for them.
+fn escapes_well_formed(t: &str) -> bool {
+    let mut chars = t.chars();
+    while let Some(ch) = chars.next() {
+        if ch != '\u{1b}' {
+            continue;
+        }
+        match chars.next() {
+            Some('[') => {
+                if !chars.by_ref().any(|c| ('\u{40}'..='\u{7e}').contains(&c)) {
+                    return false;
+                }
+            }
+            Some(']') => {
+                let mut prev = ']';
+                let mut closed = false;
+                for c in chars.by_ref() {
+                    if c == '\u{7}' || (prev == '\u{1b}' && c == '\\') {
+                        closed = true;
+                        break;
+                    }
+                    prev = c;
+                }
+                if !closed {
+                    return false;
+                }
+            }
+            _ => return false,
+        }
+    }
+    true
+}
+
 fn builtin(o: &Opt) -> bool {
     !o.uses_callbacks()
 }
@@ -572,7 +607,9 @@ fn execute(c: &Call, buf: &str, inplace: Option<&mut String>, texts: &[String]) 
     let full = match c.kind {
         Kind::DisplayWidth => {
             let v = format!("{}", display_width(buf));
-            obs.push(("C10", v.clone()));
+            if escapes_well_formed(buf) {
+                obs.push(("C10", v.clone()));
+            }
             v
         }
         Kind::FindWords => {
@@ -966,7 +1003,26 @@ fn variant_of(base: &str, rng: &mut Rng) -> String {
         }
         out
     };
-    match rng.below(5) {
+    match rng.below(8) {
+        5 | 6 => {
+            // an EXTENSION of the text: it continues where `base` stopped (after a space,
+            // after several, or in the middle of its last word) — state remembered about
+            // a text must not be applied to a longer text that merely starts with it
+            let tails = [" ", "  ", " a", "z", " to be", "-"];
+            let tail = if rng.chance(1, 3) { VOCAB[rng.below(VOCAB.len())] } else { tails[rng.below(tails.len())] };
+            format!("{base}{tail}")
+        }
+        7 => {
+            // a TRUNCATION at an arbitrary character boundary: the text may now end in the
+            // middle of a word, of a line ending or of an escape sequence (the library is
+            // total over such texts; for display_width they are outside C10's domain and
+            // serve as noise)
+            let cuts: Vec<usize> = base.char_indices().map(|(i, _)| i).collect();
+            if cuts.len() < 2 {
+                return format!("{base}\u{1b}[3");
+            }
+            base[..cuts[1 + rng.below(cuts.len() - 1)]].to_string()
+        }
         0 => strip(base),
         1 | 2 => {
             // (re)decorate one word: same visible text, different escape sequences
@@ -1013,8 +1069,8 @@ fn variant_of(base: &str, rng: &mut Rng) -> String {
 }
 fn gen_texts(rng: &mut Rng, n: usize) -> Vec<String> {
     let mut texts: Vec<String> = (0..n).map(|_| gen_text(rng)).collect();
-    // up to three near-duplicates of texts already in the pool
-    for _ in 0..rng.below(4) {
+    // up to five near-duplicates of texts already in the pool (or of each other: chains)
+    for _ in 0..rng.below(6) {
         let base = texts[rng.below(texts.len())].clone();
         texts.push(variant_of(&base, rng));
     }
